@@ -748,7 +748,8 @@ func (h *hCtx) showStored(c *chainT, all []entryT, k keyT) string {
 		if sg == "" {
 			sg = "-"
 		}
-		es = append(es, e{h.oracleID(c, st.oracle), strings.ToLower(sg)})
+		// oracle, first signature bytes, and the bridger / external address the stored message carries
+		es = append(es, e{h.oracleID(c, st.oracle), strings.ToLower(sg) + ":" + st.bridger + ":" + st.ext})
 	}
 	sort.Slice(es, func(i, j int) bool { return es[i].id < es[j].id })
 	var p []string
